@@ -55,6 +55,8 @@ class Sim:
             self.outstanding = False
         elif w[0] == "cccd":
             self.cccd = w[1] == "1"
+        elif w[0] == "reconnect":
+            self.cccd = self.queued = self.outstanding = False
 
 
 def gen_write(rng, malformed_rate):
@@ -97,8 +99,13 @@ def gen_session(rng, cfg, length, malformed_rate, off_contract):
             op = "wheel"
         elif off_contract and r < 0.93 and sim.latched:
             op = "confirm"                      # handler confirms although nothing is owed
-        elif off_contract and r < 0.97:
+        elif off_contract and r < 0.96:
             op = "cccd %d" % (0 if sim.cccd and rng.random() < 0.6 else 1)
+        elif off_contract and r < 0.975:
+            op = "reconnect"
+            ops.append(op)
+            sim.apply(op)
+            op = "cccd 1"
         else:
             op = "output"
         sim.apply(op)
@@ -137,17 +144,33 @@ def proj(op, line):
 
 def monitor(ops, outs):
     """independent oracle: the property sentence evaluated on the implementation's answers only.
-    Returns (index, key, text) of the first violation inside the property's scope, else None."""
+    Returns (index, key, text) of the first violation, else None. In scope (the control point stays
+    configured for indications on one connection) every clause is judged. After the client cleared
+    the CCCD or the link was lost only "never deadlocks" is judged: once the control point is
+    configured again and the link layer has nothing to send, a request must not be answered
+    Procedure Already In Progress."""
     pending = owed = outstanding = False
     cur = None
     last_error_write = "none"
+    limited = False            # CCCD cleared / reconnected at some point
+    cccd_on = True
+    lost = None                # why the pending procedure's response can no longer arrive
+    idle_output = False        # l2cap_output had nothing to send since the control point is configured again
     for k, (op, out) in enumerate(zip(ops, outs)):
         w = op.split()
         if w[0] == "reset":
-            pending = owed = outstanding = False
-            cur, last_error_write = None, "none"
+            pending = owed = outstanding = limited = idle_output = False
+            cur, last_error_write, cccd_on, lost = None, "none", True, None
         elif w[0] == "write":
             v = parse_hex(w[1])
+            if limited:
+                if out == "ok":
+                    pending, cur, owed, lost = True, v[0] if v else None, bool(v) and v[0] == 1, None
+                elif out == "err fe" and lost and cccd_on and idle_output and not owed:
+                    return (k, "C40:wedged:" + lost, "op %d `%s` answered Procedure Already In Progress (0xFE): the procedure with opcode %s was "
+                            "accepted, its response was never sent (%s), the control point is configured for indications again and the "
+                            "link layer has nothing to send" % (k, op, cur, lost))
+                continue
             if out == "ok":
                 if pending:
                     return k, "C40:accepted-while-pending", "op %d `%s` accepted although the procedure with opcode %d still awaits its response" % (k, op, cur)
@@ -169,11 +192,27 @@ def monitor(ops, outs):
                 return None            # handler contract broken by the test itself: out of scope from here
             owed = False
         elif w[0] == "cccd":
-            if w[1] == "0":
-                return None            # out of scope from here
+            cccd_on = w[1] == "1"
+            idle_output = False
+            if not cccd_on:
+                limited = True
+        elif w[0] == "reconnect":
+            limited, cccd_on, outstanding, idle_output = True, False, False, False
+            if pending:
+                lost = "disconnect-while-procedure-pending"
         elif w[0] == "ack":
             outstanding = False
         elif w[0] == "output":
+            if limited:
+                val = parse_hex(out) if out != "-" and not out.startswith(("pdu", "uninit")) else None
+                if val and len(val) >= 2 and val[0] == 0x10:
+                    pending, lost, outstanding = False, None, True
+                elif out == "-":
+                    if pending and not owed and not outstanding and not cccd_on and lost is None:
+                        lost = "cccd-cleared-while-response-queued"      # the response had its chance and was not sent
+                    if cccd_on and not outstanding:
+                        idle_output = True
+                continue
             if out == "-":
                 if pending and not owed and not outstanding:
                     return k, "C40:response-not-produced", "op %d: procedure with opcode %d accepted, nothing outstanding, but l2cap_output sends no response" % (k, cur)
@@ -268,10 +307,12 @@ PROPS = {
                   "BluetoeModel.Csc.error_write_unobserved",
                   "BluetoeModel.Csc.one_response_per_accepted", "BluetoeModel.Csc.no_uninit_read",
                   "BluetoeModel.Csc.pending_response_enabled"],
+        witnesses=["BluetoeModel.Csc.wedge_cccd_cleared", "BluetoeModel.Csc.wedge_reconnect",
+                   "BluetoeModel.Csc.never_deadlocks_full_witness"],
         run=run_c40,
-        level="proof",
+        level="proof-partial",
         technique="Lean 4 invariant proof over all in-scope histories of the control point + indication hand-shake model, differential correspondence with the real cycling_speed_and_cadence<> server, independent property monitor",
-        level_text="For every history of writes (any bytes), handler confirmations, l2cap_output calls and client confirmations: a write is answered 0xFE iff an accepted procedure still awaits its response indication (rejected_only_while_pending), a write answered with an error never changes the answer to any later write (malformed_never_blocks, every state), idle + well-formed => accepted, the responses name exactly the accepted opcodes in order with at most the pending one missing (one_response_per_accepted) and the pending response can always be obtained (pending_response_enabled). Proved for the code with fixes/csc-01 applied; the unpatched code wedges after one malformed write (monitor key C40:rejected-with-nothing-pending:after-malformed-opcode-N).",
+        level_text="For every history of writes (any bytes), handler confirmations, l2cap_output calls and client confirmations: a write is answered 0xFE iff an accepted procedure still awaits its response indication (rejected_only_while_pending), a write answered with an error never changes the answer to any later write (malformed_never_blocks, every state), idle + well-formed => accepted, the responses name exactly the accepted opcodes in order with at most the pending one missing (one_response_per_accepted) and the pending response can always be obtained (pending_response_enabled). Proved for the code with fixes/csc-01 applied; the unpatched code wedges after one malformed write (monitor key C40:rejected-with-nothing-pending:after-malformed-opcode-N). Outside that scope the control point dead-locks (wedge_cccd_cleared, wedge_reconnect, never_deadlocks_full_witness; known findings C40:wedged:cccd-cleared-while-response-queued, C40:wedged:disconnect-while-procedure-pending).",
         level_note="Trusted: Lean kernel + propext/Quot.sound/Classical.choice; model = code as far as the differential check samples it (thorough: all op sequences <= 6 over 9 ops); scope: control point configured for indications throughout, user handler confirms only what it owes (documented contract), one connection, MTU 23.",
         design_ref="§5 C40",
         assumptions=["user handler calls confirm_cumulative_wheel_revolutions exactly for set_cumulative_wheel_revolutions calls (documented contract)",
